@@ -3,13 +3,15 @@
 (A) Handling.tla model-checked exhaustively on the configurations named below (plus negative configurations that must
 fail, to show the invariants are not vacuous); (B) seeded random closed-loop scenarios of the profile(s) below run on
 the REAL kopf.operator() in the world simulator, every trace judged by TLC against Trace_Handling.tla (all invariants
-of the module are evaluated on every state of the explaining behaviour, and time is bound by urgency).
+of the module are evaluated on every state of the explaining behaviour, and time is bound by urgency). The configuration
+`mixed_q` and the scenarios of profile `mixed` have daemons beside the change handlers on the same object: the finalizer is
+held for a mandatory deletion handler AND for every live, entitled daemon.
 """
 from vf.props import _family
 
 PROFILES = "finalizer".split(',')
-CFGS = "finalizer".split(',')
-NEGATIVES = dict(x.split(':') for x in "-".split(',') if ':' in x)
+CFGS = "finalizer,mixed_q".split(',')
+NEGATIVES = {'mixed_w': 'NoHeldByDaemon'}       # witness: a state in which the daemon alone holds the object is reachable
 FEATURES = set("finalizer-write,conflict-422,delete,foreign-finalizer".split(','))
 
 
@@ -25,6 +27,8 @@ def run(ctx, rep) -> None:
         scs += H.gen_scenarios(ctx.seed, n // len(PROFILES), p)
     # the histories in which F30 was found (a finalizer removal decided on an unmatched view, 422, carried into a matching one)
     scs += [sc_ for sc_ in H.gen_scenarios(0, 1700, 'finalizer') if sc_['id'] in ('finalizer-0-577', 'finalizer-0-1641')]
+    # change handlers AND daemons on the same object: the finalizer is held for both (Handling.tla with conf.dh)
+    scs += H.gen_scenarios(ctx.seed, 60 if ctx.quick else 1200, 'mixed')
     _family.run_traces(rep, scs, '+'.join(PROFILES), nontrivial=lambda f: bool(f & FEATURES))
     # daemons and timers hold the finalizer too: the daemon histories of C09, judged by DaemonMonitor.tla
     # (clause: the finalizer is not withdrawn under a live matching daemon before backoff + timeout have passed)
